@@ -28,6 +28,11 @@ type setOp struct {
 	apply  func(a *model.Claims)
 }
 
+// c11Pool, when non-nil, makes the byte-string operations of the current history
+// draw their arguments from a pool of slices that are passed to the library as
+// they are (shared backing arrays between calls).
+var c11Pool *[][]byte
+
 func genSetOp(g *model.Gen, p int, forceValid bool) setOp {
 	bytesOp := func(setter string, okf func(n int) bool, call func(cl psatoken.IClaims, b []byte) error, apply func(a *model.Claims, b []byte), mk func(n int) []byte) setOp {
 		lens := model.SweepLens()
@@ -38,6 +43,26 @@ func genSetOp(g *model.Gen, p int, forceValid bool) setOp {
 			}
 		}
 		b := mk(n)
+		if c11Pool != nil {
+			// seeded fault C11-u: the caller passes the SAME slice (same backing array)
+			// to several setters / several times; the harness never writes to it, so
+			// the claims must keep holding what they were given
+			if e := (*c11Pool); len(e) > 0 && g.R.Intn(2) == 0 && (!forceValid || okf(len(e[len(e)-1]))) &&
+				!(setter == "SetInstID" && len(e[len(e)-1]) == 33 && e[len(e)-1][0] != 1) {
+				b = e[len(e)-1]
+				n = len(b)
+				// most recently used slice first, a random older one otherwise
+				if k := g.R.Intn(len(e)); g.R.Intn(2) == 0 && (!forceValid || okf(len(e[k]))) && !(setter == "SetInstID" && len(e[k]) == 33 && e[k][0] != 1) {
+					b, n = e[k], len(e[k])
+				}
+			} else {
+				*c11Pool = append(*c11Pool, b)
+			}
+			want := append([]byte{}, b...)
+			return setOp{setter: setter, class: fmt.Sprintf("len%d", n), accept: okf(n),
+				call:  func(cl psatoken.IClaims) error { return call(cl, b) },
+				apply: func(a *model.Claims) { apply(a, append([]byte{}, want...)) }}
+		}
 		return setOp{setter: setter, class: fmt.Sprintf("len%d", n), accept: okf(n),
 			call:  func(cl psatoken.IClaims) error { return call(cl, append([]byte{}, b...)) },
 			apply: func(a *model.Claims) { apply(a, b) }}
@@ -265,6 +290,11 @@ func runC11(c *mon.Ctx) {
 		}
 		var trace []string
 		var finals = map[string]setOp{}
+		c11Pool = nil
+		if g.R.Intn(3) == 0 {
+			c.Count("histories-with-shared-argument-slices")
+			c11Pool = &[][]byte{}
+		}
 		hsig := fmt.Sprintf("P%d", p)
 		failed := false
 		// bias: some histories are all-valid so that complete sets are common
@@ -374,6 +404,21 @@ func runC11(c *mon.Ctx) {
 		sc := &psatoken.SwComponent{}
 		var m model.Comp
 		var trace []string
+		var pool [][]byte // slices handed to both hash setters as they are (every other history)
+		sharing := g.R.Intn(2) == 0
+		arg := func(v []byte) []byte {
+			if !sharing {
+				return append([]byte{}, v...)
+			}
+			pool = append(pool, v)
+			return v
+		}
+		pick := func(v []byte) []byte {
+			if sharing && len(pool) > 0 && g.R.Intn(2) == 0 {
+				return pool[g.R.Intn(len(pool))]
+			}
+			return v
+		}
 		for i, l := 0, 1+g.R.Intn(12); i < l; i++ {
 			var name string
 			var serr error
@@ -395,18 +440,22 @@ func runC11(c *mon.Ctx) {
 				if g.R.Intn(2) == 0 {
 					n = g.HashLen()
 				}
-				v := g.Bytes(n)
+				v := pick(g.Bytes(n))
+				n = len(v)
+				keep := append([]byte{}, v...)
 				accept = n == 32 || n == 48 || n == 64
-				name, serr, apply = fmt.Sprintf("SetMeasurementValue(len%d)", n), sc.SetMeasurementValue(append([]byte{}, v...)), func() { m.MVal = model.BP(v) }
+				name, serr, apply = fmt.Sprintf("SetMeasurementValue(len%d)", n), sc.SetMeasurementValue(arg(v)), func() { m.MVal = model.BP(keep) }
 			default:
 				lens := model.SweepLens()
 				n := lens[g.R.Intn(len(lens))]
 				if g.R.Intn(2) == 0 {
 					n = g.HashLen()
 				}
-				v := g.Bytes(n)
+				v := pick(g.Bytes(n))
+				n = len(v)
+				keep := append([]byte{}, v...)
 				accept = n == 32 || n == 48 || n == 64
-				name, serr, apply = fmt.Sprintf("SetSignerID(len%d)", n), sc.SetSignerID(append([]byte{}, v...)), func() { m.Signer = model.BP(v) }
+				name, serr, apply = fmt.Sprintf("SetSignerID(len%d)", n), sc.SetSignerID(arg(v)), func() { m.Signer = model.BP(keep) }
 			}
 			c.Eval()
 			c.Count("component-setter-calls")
